@@ -259,6 +259,11 @@ func (k *keyManagementContext) deriveDHSessionKeys(ourKeyID, theirKeyID uint32, 
 		return ret, err
 	}
 
+	if ourPrivKey == nil || ourPubKey == nil || theirPubKey == nil {
+		// a generation that was never filled in (e.g. key generation failed for lack of randomness)
+		return ret, newOtrConflictError("no key found for key id")
+	}
+
 	return calculateDHSessionKeys(ourPrivKey, ourPubKey, theirPubKey, v), nil
 }
 
